@@ -75,7 +75,8 @@ type Obs struct {
 var helmFrame = regexp.MustCompile(`(?m)^(helm\.sh/helm/v4/[^\s(]+(?:\([^)]*\))?[^\s(]*)\(.*\n\s+(\S+):(\d+)`)
 
 type env struct {
-	dir     string
+	statusTable bool // also run `helm status -o table` (set by HV_C20_STATUS_TABLE=1, for the replay of the reported finding)
+	dir         string
 	obs     *Obs
 	current string
 	mu      sync.Mutex
@@ -523,6 +524,9 @@ func nominalRelease(name string, version int, status release.Status) *release.Re
 	return rel
 }
 
+// noKey: the stored object has no `release` key at all
+const noKey = "\x00no release key"
+
 type store struct {
 	drv     driver.Driver
 	setBody func(key, body string) error
@@ -539,6 +543,9 @@ func newStore(kind string) *store {
 				return err
 			}
 			o.Data = map[string][]byte{"release": []byte(body)}
+			if body == noKey {
+				o.Data = map[string][]byte{"other": []byte("x")}
+			}
 			_, err = impl.Update(context.Background(), o, metav1.UpdateOptions{})
 			return err
 		}}
@@ -550,6 +557,9 @@ func newStore(kind string) *store {
 				return err
 			}
 			o.Data = map[string]string{"release": body}
+			if body == noKey {
+				o.Data = map[string]string{"other": "x"}
+			}
 			_, err = impl.Update(context.Background(), o, metav1.UpdateOptions{})
 			return err
 		}}
@@ -613,6 +623,39 @@ func (e *env) runRelease(cs Case, idx int) error {
 		l.All = true
 		l.SetStateMask()
 		_, err := l.Run()
+		return err
+	})
+	// the commands that print stored records, in every output format
+	os.Setenv("HELM_DRIVER", "memory")
+	for _, format := range []string{"table", "json", "yaml"} {
+		format := format
+		e.call("helm list -o "+format, func() error {
+			_, err := runCLI(cfg, []string{"list", "--all", "--namespace", "ns", "-o", format})
+			return err
+		})
+		e.call("helm history -o "+format, func() error {
+			_, err := runCLI(cfg, []string{"history", "rel", "--namespace", "ns", "-o", format})
+			return err
+		})
+		if format != "table" || e.statusTable { // status as a table dereferences a null entry of the hooks list (reported): replay only
+			e.call("helm status -o "+format, func() error {
+				_, err := runCLI(cfg, []string{"status", "rel", "--namespace", "ns", "-o", format})
+				return err
+			})
+		}
+	}
+	if e.statusTable { // the same table printer as helm status
+		e.call("helm get all", func() error { _, err := runCLI(cfg, []string{"get", "all", "rel", "--namespace", "ns"}); return err })
+	}
+	for _, what := range []string{"values", "manifest", "notes", "hooks"} {
+		what := what
+		if what == "hooks" && !e.statusTable { // dereferences a null entry of the hooks list as well (reported): replay only
+			continue
+		}
+		e.call("helm get "+what, func() error { _, err := runCLI(cfg, []string{"get", what, "rel", "--namespace", "ns"}); return err })
+	}
+	e.call("helm get metadata -o json", func() error {
+		_, err := runCLI(cfg, []string{"get", "metadata", "rel", "--namespace", "ns", "-o", "json"})
 		return err
 	})
 	e.call("action.Upgrade(dry-run)", func() error {
@@ -717,6 +760,14 @@ func (e *env) runStore(cs Case, idx int) error {
 			body = encodeBody([]byte("null"))
 		case "emptyobject":
 			body = encodeBody([]byte("{}"))
+		case "nokey":
+			body = noKey
+		case "emptyvalue":
+			body = ""
+		case "onebyte":
+			body = base64.StdEncoding.EncodeToString([]byte{0x1f})
+		case "twobytes":
+			body = base64.StdEncoding.EncodeToString([]byte{0x1f, 0x8b})
 		case "nullinfo", "nullchart":
 			var tree map[string]any
 			json.Unmarshal(jb, &tree)
